@@ -16,6 +16,7 @@ import (
 	"net/http"
 	"net/http/httptest"
 	"os"
+	"path/filepath"
 	"runtime"
 	"runtime/debug"
 	"strings"
@@ -295,6 +296,41 @@ func TestVFC05QueryLogPrograms(t *testing.T) {
 
 		// let an asynchronous flush started by the last Add finish
 		_ = l.Shutdown(ctx)
+
+		// The records of concurrent requests must be stored in the order of
+		// their times: the log's own reader seeks by time in the files, and
+		// paging with the older_than cursor relies on that order.
+		if len(failures) == 0 {
+			var prev time.Time
+			lines := 0
+			for _, fn := range []string{"querylog.json.1", "querylog.json"} {
+				b, rerr := os.ReadFile(filepath.Join(dir, fn))
+				if rerr != nil {
+					continue
+				}
+				for _, line := range strings.Split(string(b), "\n") {
+					if strings.TrimSpace(line) == "" {
+						continue
+					}
+					var rec struct {
+						T time.Time `json:"T"`
+					}
+					if jerr := json.Unmarshal([]byte(line), &rec); jerr != nil {
+						fail("%s: bad line %q: %v", fn, line, jerr)
+
+						break
+					}
+					if rec.T.Before(prev) {
+						fail("%s: a record of %s is stored after a record of %s: concurrent requests were recorded out of time order", fn, rec.T.Format(time.RFC3339Nano), prev.Format(time.RFC3339Nano))
+
+						break
+					}
+					prev = rec.T
+					lines++
+				}
+			}
+			vfC05Q.ClassN("qlog:file_records_checked_for_order", lines)
+		}
 
 		vfC05Q.Eval()
 		vfC05Q.ClassN("qlog:records_added", int(adds.Load()))
